@@ -223,11 +223,18 @@ def run_spec(p, res):
             try:
                 if hasattr(dem, "reset_state"):
                     dem.reset_state()
+                t0_, nv0_ = t.clone(), (nv.clone() if form != "float" else None)
                 out = dem(t, nv) if form != "float" else dem(t, noise_var=nv)
             except Exception as e:  # noqa: BLE001
                 v("raises" if form != "per-symbol" else "per-symbol", f"soft demodulation sigma2={s2} ({form}): {type(e).__name__}: {str(e)[:200]}")
                 continue
             res.transitions += 1
+            # the received points and the noise variance are the caller's: a second call with the very same tensors must see the same values
+            if not torch.equal(t, t0_) or (nv0_ is not None and not torch.equal(nv, nv0_)):
+                v("llr-scaling", f"sigma2={s2} ({form}): the call modified its {'received points' if not torch.equal(t, t0_) else 'noise-variance tensor'} argument "
+                  f"({'' if nv0_ is None else f'noise variance now {nv.reshape(-1)[0].item():.6g}'}): the next call with the same tensor is scaled differently")
+                if nv0_ is not None:
+                    nv.copy_(nv0_)
             llr = out.reshape(-1, b).to(torch.float64).tolist()
             if len(llr) != len(dps):
                 v("llr-form", f"sigma2={s2} ({form}): {len(dps)} decision points but {len(llr)} LLR groups (shape {tuple(out.shape)})")
